@@ -263,6 +263,15 @@ impl Db {
     /// `compat = false` gives a plain connection (only the `random` override), used to judge the SQLite dialect
     pub fn new(compat: bool, mode: RandomMode) -> Db {
         let conn = Connection::open_in_memory().expect("sqlite");
+        // be strict: a double-quoted name that is not a column must be an error (as in PostgreSQL),
+        // not silently a string literal
+        unsafe {
+            let h = conn.handle();
+            let mut out: std::os::raw::c_int = 0;
+            // SQLITE_DBCONFIG_DQS_DML = 1013, SQLITE_DBCONFIG_DQS_DDL = 1014
+            rusqlite::ffi::sqlite3_db_config(h, 1013, 0 as std::os::raw::c_int, &mut out as *mut std::os::raw::c_int);
+            rusqlite::ffi::sqlite3_db_config(h, 1014, 0 as std::os::raw::c_int, &mut out as *mut std::os::raw::c_int);
+        }
         let random = Arc::new(Mutex::new(RandomSource { mode, calls: 0, state: 0 }));
         let det = FunctionFlags::SQLITE_UTF8 | FunctionFlags::SQLITE_DETERMINISTIC;
         {
